@@ -573,7 +573,9 @@ Check C11_file_step :
   Inv E D decompress verify pw rb srb b' (Update.after a o).
 Print Assumptions C11_file_step.
 
-(* histories: the file at the end abstracts to Update.final a ops, and C11_history_invariant holds of what the file decodes to *)
+(* histories: the file at the end abstracts to Update.final a ops, and C11_history_invariant holds of what the file decodes to
+   (hist_ok asks nothing of create / update / delete steps, and of an append step only that no walked path has a name the
+   archive holds: C11_hist_ok_create / _update / _append in Props/C11.v; create's items are collect_items' since 4cfc8ff5) *)
 Theorem C11_file_history :
   forall (E D : encryption -> bytes -> bytes -> bytes)
     (compress : compression -> N -> list bytes -> list bytes) (decompress : compression -> bytes -> res bytes)
